@@ -860,7 +860,7 @@ def ob_fn_value_arguments(run, mir, rp, fam, prefix="fn-value"):
                 "of the constraint's parent), child = the argument; a surplus or missing argument is an error", ["unify_function (loop body)"])
     fn = e2.find1(mir, file=UNIFY_FUN_RS, name="unify_function")
     CON = "src/check/constrain/constraint/mod.rs"
-    claims, n_push, n_err = [], 0, 0
+    claims, n_push, n_err, n_other = [], 0, 0, 0
     ex = None
     for order in ("function-type", "type-function"):
         ex = Exec(mir, max_paths=5000)
@@ -888,6 +888,9 @@ def ob_fn_value_arguments(run, mir, rp, fam, prefix="fn-value"):
             s = p.state
             zips = calls(p, "Itertools::zip_longest")
             if not zips:
+                if calls(p, "Constraints::push"):
+                    n_other += 1                       # arguments are paired by something that does not report a length mismatch
+                    claims.append(z3.Not(c))
                 continue
             nxt = [ev for ev in calls(p, "Iterator::next") if p.events.index(ev) > p.events.index(zips[0])]
             iters = [ev for ev in p.events if ev["name"].split("::")[-1] == "iter" and p.events.index(ev) < p.events.index(zips[0])][-2:]
@@ -925,7 +928,7 @@ def ob_fn_value_arguments(run, mir, rp, fam, prefix="fn-value"):
                         parent_ok = z3.And(ex.to_val(s, second.fields[0]) == ex.to_val(s, formal), nw["argvals"][0] == lpos)
                 spec.append(z3.And(parent_ok, a["argvals"][3] == ex.to_val(s, actual)))
             claims.append(z3.Implies(c, conj(spec)))
-    if n_push != 2 or n_err < 2:
+    if not n_other and (n_push != 2 or n_err < 2):
         raise Unsupported(f"{n_push} queued-constraint paths, {n_err} error paths")
     ff = fn_value_family(rp)
     e2.prove(run, ob, ex, [], conj(claims), {}, ff.as_replay(prefix + ":"))
